@@ -91,10 +91,11 @@ var devKey = map[string]string{
 	"short":         "multi-short-result-null-without-error",
 	"nil-requires":  "multi-nil-entity-requires-panic-loses-rest",
 	"bad-requires":  "multi-malformed-requires-loses-rest",
+	"bad-key":       "multi-malformed-key-fails-group",
 }
 
 var devConst = map[string]string{"other-key": "FixFirstRep", "first-invalid": "FixFirstRep", "short": "FixShort",
-	"nil-requires": "FixNilReq", "bad-requires": "FixBadReq"}
+	"nil-requires": "FixNilReq", "bad-requires": "FixBadReq", "bad-key": "FixBadKey"}
 
 var fixFlag = map[string]bool{}
 
@@ -122,7 +123,7 @@ func loadFixFlags() {
 
 func fixDesc() string {
 	var out []string
-	for _, c := range []string{"FixFirstRep", "FixShort", "FixNilReq", "FixBadReq"} {
+	for _, c := range []string{"FixFirstRep", "FixShort", "FixNilReq", "FixBadReq", "FixBadKey"} {
 		out = append(out, fmt.Sprintf("%s=%v", c, fixFlag[c]))
 	}
 	return strings.Join(out, " ")
@@ -207,6 +208,7 @@ func modelConfigs(thorough bool) []mcfg {
 			{"rq3", []string{"R3:1b", "Rm3", "Rm3:2b", "Rm3:3a"}, 3, 1, false},
 			{"ck1", compositeKinds, 1, 1, false},
 			{"ck2", []string{"C:vn", "Cm:vn", "Cm:nv", "Cm:nn", "Cm", "K2:cn", "N2:vn"}, 2, 1, false},
+			{"bk", []string{"S:kb", "Mid", "Mid:kb", "C:vb", "Cm", "Cm:vb", "Cm:bv"}, 2, 1, false},
 		}
 	}
 	return []mcfg{
@@ -226,6 +228,7 @@ func modelConfigs(thorough bool) []mcfg {
 		{"ck1", compositeKinds, 1, 1, false},
 		{"ck2", compositeKinds, 2, 1, false},
 		{"ck3", []string{"Cm", "Cm:vn", "Cm:nv", "Cm:nn", "Cm:va", "C:vn"}, 3, 1, false},
+		{"bk", []string{"S:kb", "Mid", "Mid:kb", "Malt", "C:vb", "Cm", "Cm:vb", "Cm:bv"}, 3, 1, false},
 	}
 }
 
@@ -326,7 +329,13 @@ var keyLeaves = map[string][]string{
 
 // kindLeaves: status ("v" | "null"; absent = not in the map) of every key leaf a kind carries.
 func kindLeaves(k string) map[string]string {
-	st := map[byte]string{'v': "v", 'n': "null"}
+	st := map[byte]string{'v': "v", 'n': "null", 'b': "badv"}
+	switch k {
+	case "S:kb":
+		return map[string]string{"id": "badv"}
+	case "Mid:kb":
+		return map[string]string{"id": "badv"}
+	}
 	two := func(f1, f2 string, c string) map[string]string {
 		m := map[string]string{}
 		if s, ok := st[c[0]]; ok {
@@ -490,8 +499,15 @@ func concretise(k string, i int, rnd *rand.Rand) map[string]any {
 				return good, true
 			case "null":
 				return nil, true
+			case "badv": // present, not null, of the wrong JSON type
+				return []any{map[string]any{"x": 1.0}, []any{"a", map[string]any{"y": 2.0}}}[rnd.Intn(2)], true
 			}
 			return nil, false
+		}
+		if k == "S:kb" || k == "Mid:kb" {
+			m["__typename"] = map[string]string{"S:kb": "S", "Mid:kb": "M"}[k]
+			m["id"], _ = val("id", id)
+			return m
 		}
 		switch tn {
 		case "N2":
@@ -1072,10 +1088,6 @@ func main() {
 		if m.bothModes(thorough) {
 			mjobs = append(mjobs, &mcJob{m: m, cfg: "MC_Entities_emit.cfg", inline: false})
 		}
-		if !allFixed {
-			// (with every finding fixed the export run above IS the all-repaired model judged by Correct)
-			mjobs = append(mjobs, &mcJob{m: m, cfg: "MC_Entities_fixed.cfg", inline: true})
-		}
 	}
 	{
 		sem := make(chan struct{}, 4)
@@ -1090,6 +1102,36 @@ func main() {
 			}(mj)
 		}
 		wg.Wait()
+	}
+	runJobs := func(js []*mcJob) {
+		sem := make(chan struct{}, 4)
+		var wg sync.WaitGroup
+		for _, mj := range js {
+			wg.Add(1)
+			go func(mj *mcJob) {
+				defer wg.Done()
+				sem <- struct{}{}
+				defer func() { <-sem }()
+				mj.res = runMC(c, mj.m, mj.cfg, mj.inline, 1, true)
+			}(mj)
+		}
+		wg.Wait()
+	}
+	// the all-repaired design (Correct itself) is checked separately wherever the model of the
+	// current tree deviates from it (an export with a non-empty deviation set); elsewhere the export
+	// run IS the repaired model judged by Correct
+	{
+		var fixedJobs []*mcJob
+		seen := map[string]bool{}
+		for _, mj := range mjobs {
+			if seen[mj.m.Name] || !strings.Contains(strings.Join(mj.res.Printed, ""), `\"devs\":[\"`) {
+				continue
+			}
+			seen[mj.m.Name] = true
+			fixedJobs = append(fixedJobs, &mcJob{m: mj.m, cfg: "MC_Entities_fixed.cfg", inline: true})
+		}
+		runJobs(fixedJobs)
+		mjobs = append(mjobs, fixedJobs...)
 	}
 	var ems []*emitted
 	for _, mj := range mjobs {
@@ -1250,95 +1292,105 @@ func main() {
 	// vlib.ValidateBatchWith, whose TLC runs take 160 units) - a rejected pack is re-validated
 	// trace by trace.
 	lines := linesOf(jobsByID)
+	var tvWG sync.WaitGroup
+	tvSem := make(chan struct{}, 4) // one TLC process (1 worker) per variant, at most 4 at a time
 	for _, f := range fvs {
 		if c.Violations() >= 20 {
 			fmt.Fprintf(os.Stderr, "[c20] trace validation skipped: the replay already reported the maximum number of violations\n")
 			break
 		}
-		var scs []*vlib.Scenario
-		for i, j := range allOK {
-			stride := len(fvs)
-			if !thorough {
-				stride *= 2 // quick tier: every second behaviour
+		f := f
+		tvWG.Add(1)
+		go func() {
+			defer tvWG.Done()
+			tvSem <- struct{}{}
+			defer func() { <-tvSem }()
+			var scs []*vlib.Scenario
+			for i, j := range allOK {
+				stride := len(fvs)
+				if !thorough {
+					stride *= 2 // quick tier: every second behaviour
+				}
+				if j.Variant != f.V.Name || i%stride != indexOf(fvs, f.V.Name) {
+					continue
+				}
+				scs = append(scs, j.S)
 			}
-			if j.Variant != f.V.Name || i%stride != indexOf(fvs, f.V.Name) {
-				continue
+			if len(scs) == 0 {
+				return
 			}
-			scs = append(scs, j.S)
-		}
-		if len(scs) == 0 {
-			continue
-		}
-		m := mcfg{"trace", []string{"S"}, 4, 2, false}
-		pinEdit := m.edit(f.Inline)
-		fixEdit := func(cfg string) string {
-			cfg = pinEdit(cfg)
-			for _, k := range []string{"FixFirstRep", "FixShort", "FixNilReq", "FixBadReq"} {
-				cfg = strings.Replace(cfg, k+" = FALSE", k+" = TRUE", 1)
+			m := mcfg{"trace", []string{"S"}, 4, 2, false}
+			pinEdit := m.edit(f.Inline)
+			fixEdit := func(cfg string) string {
+				cfg = pinEdit(cfg)
+				for _, k := range []string{"FixFirstRep", "FixShort", "FixNilReq", "FixBadReq", "FixBadKey"} {
+					cfg = strings.Replace(cfg, k+" = FALSE", k+" = TRUE", 1)
+				}
+				return cfg
 			}
-			return cfg
-		}
-		t1 := time.Now()
-		const packSize = 10
-		packs := map[string][]*vlib.Scenario{}
-		var units []*vlib.Scenario
-		for i := 0; i < len(scs); i += packSize {
-			hi := i + packSize
-			if hi > len(scs) {
-				hi = len(scs)
+			t1 := time.Now()
+			const packSize = 10
+			packs := map[string][]*vlib.Scenario{}
+			var units []*vlib.Scenario
+			for i := 0; i < len(scs); i += packSize {
+				hi := i + packSize
+				if hi > len(scs) {
+					hi = len(scs)
+				}
+				u := &vlib.Scenario{ID: fmt.Sprintf("pack-%s-%d", f.V.Name, i), Variant: f.V.Name}
+				packs[u.ID] = scs[i:hi]
+				units = append(units, u)
 			}
-			u := &vlib.Scenario{ID: fmt.Sprintf("pack-%s-%d", f.V.Name, i), Variant: f.V.Name}
-			packs[u.ID] = scs[i:hi]
-			units = append(units, u)
-		}
-		packLines := func(u *vlib.Scenario) [][]byte {
-			var out [][]byte
-			for _, s := range packs[u.ID] {
-				out = append(out, lines(s)...)
+			packLines := func(u *vlib.Scenario) [][]byte {
+				var out [][]byte
+				for _, s := range packs[u.ID] {
+					out = append(out, lines(s)...)
+				}
+				return out
 			}
-			return out
-		}
-		quiet := vlib.NewCheck("C20", "model_checking") // counts of the packed runs are re-attributed below
-		rejP, err := vlib.ValidateBatchWith(quiet, vlib.TLCOpts{Module: "EntitiesTrace", Config: "EntitiesTrace.cfg", CfgEdit: pinEdit}, nil, units, packLines,
-			vlib.Work("C20", "tv-"+f.V.Name))
-		if err != nil {
-			vlib.Infra("trace validation %s: %v", f.V.Name, err)
-		}
-		accepted := len(scs)
-		var suspects []*vlib.Scenario
-		for _, r := range rejP {
-			accepted -= len(packs[r.Scenario.ID])
-			suspects = append(suspects, packs[r.Scenario.ID]...)
-		}
-		c.AddTraces(int64(accepted))
-		var rej, still []vlib.Rejection
-		if len(suspects) > 0 {
-			rej, err = vlib.ValidateBatchWith(c, vlib.TLCOpts{Module: "EntitiesTrace", Config: "EntitiesTrace.cfg", CfgEdit: pinEdit}, nil, suspects, lines,
-				vlib.Work("C20", "tvs-"+f.V.Name))
+			quiet := vlib.NewCheck("C20", "model_checking") // counts of the packed runs are re-attributed below
+			rejP, err := vlib.ValidateBatchWith(quiet, vlib.TLCOpts{Module: "EntitiesTrace", Config: "EntitiesTrace.cfg", CfgEdit: pinEdit}, nil, units, packLines,
+				vlib.Work("C20", "tv-"+f.V.Name))
 			if err != nil {
 				vlib.Infra("trace validation %s: %v", f.V.Name, err)
 			}
-		}
-		// a trace the pinned model rejects may be the repaired behaviour: ask the repaired model
-		if len(rej) > 0 {
-			var again []*vlib.Scenario
-			for _, r := range rej {
-				again = append(again, r.Scenario)
+			accepted := len(scs)
+			var suspects []*vlib.Scenario
+			for _, r := range rejP {
+				accepted -= len(packs[r.Scenario.ID])
+				suspects = append(suspects, packs[r.Scenario.ID]...)
 			}
-			still, err = vlib.ValidateBatchWith(c, vlib.TLCOpts{Module: "EntitiesTrace", Config: "EntitiesTrace.cfg", CfgEdit: fixEdit}, nil, again, lines,
-				vlib.Work("C20", "tvfix-"+f.V.Name))
-			if err != nil {
-				vlib.Infra("trace validation (repaired model) %s: %v", f.V.Name, err)
+			c.AddTraces(int64(accepted))
+			var rej, still []vlib.Rejection
+			if len(suspects) > 0 {
+				rej, err = vlib.ValidateBatchWith(c, vlib.TLCOpts{Module: "EntitiesTrace", Config: "EntitiesTrace.cfg", CfgEdit: pinEdit}, nil, suspects, lines,
+					vlib.Work("C20", "tvs-"+f.V.Name))
+				if err != nil {
+					vlib.Infra("trace validation %s: %v", f.V.Name, err)
+				}
 			}
-		}
-		fmt.Fprintf(os.Stderr, "[c20] variant %s: %d traces validated by TLC in %.0fs (%d rejected by the pinned model, %d by both)\n", f.V.Name, len(scs), time.Since(t1).Seconds(), len(rej), len(still))
-		for _, r := range still {
-			j := jobsByID[r.Scenario.ID]
-			rb, _ := json.Marshal(j.S.Vars["reps"])
-			c.Violate("entities|trace-rejected|"+strings.Join(j.E.Reps, ","),
-				fmt.Sprintf("Entities (pinned and repaired) does not admit the observed execution on %s\nrepresentations=%s outcomes=%v batch=%v\n%s", f.V.Name, rb, j.E.Out, j.E.Bout, r.Describe()), jobsByID[r.Scenario.ID])
-		}
+			// a trace the pinned model rejects may be the repaired behaviour: ask the repaired model
+			if len(rej) > 0 {
+				var again []*vlib.Scenario
+				for _, r := range rej {
+					again = append(again, r.Scenario)
+				}
+				still, err = vlib.ValidateBatchWith(c, vlib.TLCOpts{Module: "EntitiesTrace", Config: "EntitiesTrace.cfg", CfgEdit: fixEdit}, nil, again, lines,
+					vlib.Work("C20", "tvfix-"+f.V.Name))
+				if err != nil {
+					vlib.Infra("trace validation (repaired model) %s: %v", f.V.Name, err)
+				}
+			}
+			fmt.Fprintf(os.Stderr, "[c20] variant %s: %d traces validated by TLC in %.0fs (%d rejected by the pinned model, %d by both)\n", f.V.Name, len(scs), time.Since(t1).Seconds(), len(rej), len(still))
+			for _, r := range still {
+				j := jobsByID[r.Scenario.ID]
+				rb, _ := json.Marshal(j.S.Vars["reps"])
+				c.Violate("entities|trace-rejected|"+strings.Join(j.E.Reps, ","),
+					fmt.Sprintf("Entities (pinned and repaired) does not admit the observed execution on %s\nrepresentations=%s outcomes=%v batch=%v\n%s", f.V.Name, rb, j.E.Out, j.E.Bout, r.Describe()), jobsByID[r.Scenario.ID])
+			}
+		}()
 	}
+	tvWG.Wait()
 
 	// 5. self-test of the binding: corrupted copies of accepted traces must be rejected
 	{
